@@ -619,11 +619,15 @@ func cloneEntry(src *kv.Entry, fallbackCF kv.ColumnFamily) *kv.Entry {
 		cf = kv.CFDefault
 	}
 	userKeySrc := src.Key
+	// A memtable hit keeps the search key (which carries the requested version) and records
+	// the version it found in src.Version; an SST hit carries the found key. The version of
+	// the record that was found is the one to report, so the key's only stands in when the
+	// entry has none.
 	version := src.Version
 	if storedCF, parsedUserKey, ts := kv.SplitInternalKey(src.Key); storedCF.Valid() {
 		cf = storedCF
 		userKeySrc = parsedUserKey
-		if ts != 0 {
+		if version == 0 {
 			version = ts
 		}
 	}
